@@ -239,6 +239,37 @@ pub struct Restart<'a> {
     pub before: &'a Obs,
     /// scan of the tree after the uninterrupted operation
     pub after: &'a Obs,
+    /// chunk-cache domain: the (key, start, end) ranges a cache opened on the tree just before the operation
+    /// answers with a hit
+    pub cache_hits_before: &'a BTreeSet<(u8, u32, u32)>,
+}
+
+/// The ranges (of the menu ranges named by history and operation, and their single chunks) that a cache opened on
+/// `dir` answers with a hit.
+pub fn cache_hits_on(ctx: &Ctx, dir: &Path, history: &[Op], op: &Op) -> BTreeSet<(u8, u32, u32)> {
+    let cfg = CacheConfig {
+        cache_directory: dir.to_path_buf(),
+        cache_size: cache_capacity(ctx.param),
+    };
+    let mut hits = BTreeSet::new();
+    let res = guarded(|| -> Result<(), String> {
+        let c = DiskCache::initialize(&cfg).map_err(|e| format!("{e:?}"))?;
+        for h in history.iter().chain(std::iter::once(op)) {
+            if let Op::CachePut(i, _) = h {
+                let (k, s, e) = cache_menu_range(*i);
+                let mut rs = vec![(k, s, e)];
+                rs.extend((s..e).map(|c| (k, c, c + 1)));
+                for (k, s, e) in rs {
+                    if let Ok(Some(_)) = c.get(&cache_key(k), &ChunkRange { start: s, end: e }) {
+                        hits.insert((k, s, e));
+                    }
+                }
+            }
+        }
+        Ok(())
+    });
+    let _ = res;
+    hits
 }
 
 #[derive(Default)]
@@ -523,7 +554,14 @@ fn reopen_cache(r: &Restart, dir: &Path, st: &mut RestartStats, fails: &mut Vec<
         for (k, s, e) in &ranges {
             st.cache_gets += 1;
             match c.get(&cache_key(*k), &ChunkRange { start: *s, end: *e }) {
-                Ok(None) => st.cache_misses += 1,
+                Ok(None) => {
+                    st.cache_misses += 1;
+                    // with the capacity never reached nothing is evicted: what a cache on the tree before the
+                    // operation answered is still answered after a stop anywhere inside the operation
+                    if r.ctx.param == 0 && r.cache_hits_before.contains(&(*k, *s, *e)) {
+                        v.push((format!("C19/record-lost:{kind}"), format!("get(key {k}, [{s},{e})) was a hit before the interrupted put and is a miss on the re-opened cache")));
+                    }
+                },
                 Ok(Some(cr)) => {
                     st.cache_hits += 1;
                     let (idx, data) = cache_range_bytes(*k, *s, *e);
